@@ -35,8 +35,19 @@ def rustc(src_path, out_path, emit_metadata=True, extra=()):
     return p.returncode, codes, msgs
 
 def workdir(tag):
+    """scratch directory of this run; removed at exit (the programs a violation refers to are copied into the replay
+    payload as text), and stale ones of dead processes are removed first"""
+    import atexit, shutil
+    for old in glob.glob("%s/special-%s-*" % (BUILD, tag)):
+        try:
+            pid = int(old.rsplit("-", 1)[1])
+        except ValueError:
+            continue
+        if not os.path.exists("/proc/%d" % pid):
+            shutil.rmtree(old, ignore_errors=True)
     d = "%s/special-%s-%d" % (BUILD, tag, os.getpid())
     os.makedirs(d, exist_ok=True)
+    atexit.register(shutil.rmtree, d, True)
     return d
 
 # ------------------------------------------------------------------------------------------------ C13
@@ -62,7 +73,7 @@ def c13(tier, seed):
     viol = []
     if rc != 0:
         viol.append({"signature": "c13-const-assert", "concrete": True,
-                     "payload": {"what": "a compile-time size/alignment assertion on MiniVec<T> / Option<MiniVec<T>> fails", "rustc": msgs[:5], "program": path}})
+                     "payload": {"what": "a compile-time size/alignment assertion on MiniVec<T> / Option<MiniVec<T>> fails", "rustc": msgs[:5], "program": open(path).read()}})
     # the same assertions against the crate compiled in other configurations (the layout must not depend on the
     # profile, on target features or on cargo features): the crate is compiled here directly from /repo/src
     serde = sorted(glob.glob(DEPS + "/libserde-*.rlib"), key=os.path.getmtime)
@@ -86,7 +97,7 @@ def c13(tier, seed):
         if p2.returncode != 0:
             viol.append({"signature": "c13-const-assert-" + name, "concrete": True,
                          "payload": {"what": "a compile-time size/alignment assertion fails when the crate is built in configuration `%s` (%s)" % (name, " ".join(flags)),
-                                     "rustc": [l for l in p2.stderr.split("\n") if "error" in l][:5], "program": path}})
+                                     "rustc": [l for l in p2.stderr.split("\n") if "error" in l][:5], "program": open(path).read()}})
     cov = {"evaluations": n, "distinct_nontrivial": n, "exhaustive": False,
            "rule": "one const assertion per (element type, fact, build configuration) over %d element types of every size/alignment class (owning, borrowing, fat-pointer, over-aligned) and the crate built as the harness builds it, optimized without debug assertions, with AVX / AVX2 target features, optimized with debug assertions, and with the serde feature; all distinct" % len(C13_TYPES),
            "samples": src[7:10], "traces_validated_against_impl": n if rc == 0 else 0}
